@@ -380,7 +380,7 @@ func respondKeyExchange(ke *KeyExchange, hid byte, r *bigmod.Nat, rA []byte) ([]
 	if err != nil || !rP.IsOnCurve() {
 		return nil, nil, errors.New("sm9: invalid initiator's ephemeral public key")
 	}
-	ke.peerSecret = rA
+	ke.peerSecret = append([]byte(nil), rA...) // used again in ConfirmInitiator: do not depend on the caller's buffer
 	pubA := ke.privateKey.GenerateUserPublicKey(ke.peerUID, hid)
 	ke.r = r
 	rBytes := r.Bytes(orderNat)
@@ -435,7 +435,7 @@ func (ke *KeyExchange) ConfirmResponder(rB, sB []byte) ([]byte, []byte, error) {
 		return nil, nil, errors.New("sm9: invalid responder's ephemeral public key")
 	}
 	// step 5
-	ke.peerSecret = rB
+	ke.peerSecret = append([]byte(nil), rB...)
 	g1, err := ke.privateKey.EncryptMasterPublicKey.ScalarBaseMult(ke.r.Bytes(orderNat))
 	if err != nil {
 		return nil, nil, err
